@@ -7,6 +7,7 @@ import functools
 import inspect
 import json
 from contextlib import contextmanager
+from contextvars import ContextVar
 from pathlib import Path
 from typing import (
     Annotated,
@@ -387,6 +388,27 @@ def Resource(
     return _Resource(factory, cache)
 
 
+class _Resolution:
+    """Bookkeeping of one dependency resolution.
+
+    Task-local (held in a ContextVar): concurrently running steps share the
+    ResourceManager but must not see each other's resolution chain or
+    non-cached values.
+    """
+
+    __slots__ = ("manager", "resolving", "cache")
+
+    def __init__(self, manager: ResourceManager) -> None:
+        self.manager = manager
+        self.resolving: list[str] = []  # Track resources being resolved in order
+        self.cache: dict[str, Any] = {}
+
+
+_RESOLUTION: ContextVar[_Resolution | None] = ContextVar(
+    "workflows_resource_resolution", default=None
+)
+
+
 class ResourceManager:
     """Manage resource lifecycles and caching across workflow steps.
 
@@ -398,58 +420,62 @@ class ResourceManager:
 
     def __init__(self) -> None:
         self.resources: dict[str, Any] = {}
-        self._resolving: list[str] = []  # Track resources being resolved in order
-        self._resolution_cache: dict[str, Any] = {}
-        self._resolution_depth = 0
 
     @contextmanager
     def resolution_scope(self) -> Iterator[None]:
         """Scope non-cached resolution values to a single dependency graph."""
-        self._resolution_depth += 1
+        current = _RESOLUTION.get()
+        if current is not None and current.manager is self:
+            # Nested scope in the same task: share the outer resolution.
+            yield
+            return
+        token = _RESOLUTION.set(_Resolution(self))
         try:
             yield
         finally:
-            self._resolution_depth -= 1
-            if self._resolution_depth == 0:
-                self._resolution_cache.clear()
+            _RESOLUTION.reset(token)
 
     async def set(self, name: str, val: Any) -> None:
         """Register a resource instance under a name."""
         self.resources.update({name: val})
 
     async def get(self, resource: ResourceDescriptor) -> Any:
-        if self._resolution_depth == 0:
-            with self.resolution_scope():
-                return await self._get(resource)
-        return await self._get(resource)
+        with self.resolution_scope():
+            return await self._get(resource)
 
     async def _get(self, resource: ResourceDescriptor) -> Any:
         """Return a resource instance, honoring cache settings.
 
         Works with any ResourceDescriptor implementation (_Resource or _ResourceConfig).
         """
+        state = _RESOLUTION.get()
+        if state is None or state.manager is not self:
+            # Called outside any resolution scope: open one for this call.
+            with self.resolution_scope():
+                return await self._get(resource)
+
         # Cycle detection
-        if resource.name in self._resolving:
-            chain = " -> ".join(self._resolving) + f" -> {resource.name}"
+        if resource.name in state.resolving:
+            chain = " -> ".join(state.resolving) + f" -> {resource.name}"
             raise ValueError(f"Circular resource dependency detected: {chain}")
 
         # Check cache first (before marking as resolving)
         if resource.cache and resource.name in self.resources:
             return self.resources[resource.name]
-        if resource.name in self._resolution_cache:
-            return self._resolution_cache[resource.name]
+        if resource.name in state.cache:
+            return state.cache[resource.name]
 
         # Mark as resolving for cycle detection
-        self._resolving.append(resource.name)
+        state.resolving.append(resource.name)
         try:
             val = await resource.resolve(self)
             if resource.cache:
                 await self.set(resource.name, val)
-            self._resolution_cache[resource.name] = val
+            state.cache[resource.name] = val
             return val
         finally:
-            if resource.name in self._resolving:
-                self._resolving.remove(resource.name)
+            if resource.name in state.resolving:
+                state.resolving.remove(resource.name)
 
     def get_all(self) -> dict[str, Any]:
         """Return all materialized resources."""
